@@ -172,6 +172,19 @@ int cif_loop_set_category(cif_loop_tp *loop, const UChar *category) {
     cif_container_tp *container = loop->container;
     UChar *category_temp;
 
+    if (container != NULL) {
+        if (container->cif == NULL) {
+            return CIF_ERROR;
+        }
+
+        /*
+         * Create any needed prepared statements, or prepare the existing one(s)
+         * for re-use, exiting this function with an error on failure.  This must
+         * precede the allocation of the category copy, which would otherwise leak.
+         */
+        PREPARE_STMT(container->cif, set_loop_category, SET_CATEGORY_SQL);
+    }
+
     if (category == NULL) {
         category_temp = NULL;
     } else if (*category == 0) {
@@ -211,12 +224,6 @@ int cif_loop_set_category(cif_loop_tp *loop, const UChar *category) {
         } else {
             FAILURE_HANDLING;
             STEP_HANDLING;
-
-            /*
-             * Create any needed prepared statements, or prepare the existing one(s)
-             * for re-use, exiting this function with an error on failure.
-             */
-            PREPARE_STMT(cif, set_loop_category, SET_CATEGORY_SQL);
 
             /* set the category */
             if ((sqlite3_bind_int64(cif->set_loop_category_stmt, 2, container->id) == SQLITE_OK)
